@@ -1,4 +1,5 @@
 import RpmVerif.Props.C05
+import RpmVerif.Model.PgpFraming
 /-!
 # C04 — untrusted bytes never crash the reader
 
@@ -270,6 +271,78 @@ theorem getInstalledSize_total (h : Header) : (getInstalledSize h).isPanic = fal
   unfold getInstalledSize; split
   · rfl
   · exact getWith_not_panic _ _ _
+
+/-! ### signature blobs: what reaches the OpenPGP parser lies inside the blob
+
+`signature_key_ids()` and the library's own `Verifier::verify` parse attacker-chosen signature blobs with the `pgp`
+crate, whose packet parser allocates a packet's DECLARED length before reading it (the code before 549074e: 104 MB
+for the 7-byte blob below, up to 4 GiB for six bytes). The packets `split_packets` hands over are a partition of the
+blob, so no declared length exceeds the blob — for EVERY blob. -/
+section pgp
+open RpmVerif.Pgp
+
+theorem splitAux_flatten (fuel : Nat) (blob : Bytes) (ps : List Bytes) (h : splitAux fuel blob = some ps) :
+    ps.flatten = blob := by
+  induction fuel generalizing blob ps with
+  | zero => simp [splitAux] at h
+  | succ fuel ih =>
+    cases blob with
+    | nil => simp [splitAux] at h; subst h; rfl
+    | cons t r =>
+      simp only [splitAux] at h
+      split at h
+      · cases h
+      · rename_i hh b hl
+        split at h
+        · simp only [Option.map_eq_some_iff] at h
+          obtain ⟨rest, hr, rfl⟩ := h
+          rw [List.flatten_cons, ih _ _ hr, List.take_append_drop]
+        · cases h
+
+/-- **the packets are a partition of the blob** -/
+theorem split_partition (blob : Bytes) (ps : List Bytes) (h : splitPackets blob = some ps) : ps.flatten = blob :=
+  splitAux_flatten _ _ _ h
+
+theorem le_sum_of_mem_nat {l : List Nat} {n : Nat} (h : n ∈ l) : n ≤ l.sum := by
+  induction l with
+  | nil => cases h
+  | cons a l ih =>
+    rw [List.sum_cons]
+    rcases List.mem_cons.mp h with rfl | h'
+    · omega
+    · have := ih h'; omega
+
+/-- **no packet handed to the parser is longer than the blob, and together they are exactly the blob** -/
+theorem split_bounded (blob : Bytes) (ps : List Bytes) (h : splitPackets blob = some ps) :
+    (∀ p ∈ ps, p.length ≤ blob.length) ∧ (ps.map List.length).sum = blob.length := by
+  have hf := split_partition blob ps h
+  constructor
+  · intro p hp
+    rw [← hf, List.length_flatten]
+    exact le_sum_of_mem_nat (List.mem_map_of_mem hp)
+  · rw [← hf, List.length_flatten]
+
+/-- a declared length that points beyond the blob is refused: new-format five-octet length -/
+theorem split_refuses_oversize_new (t a b c d : UInt8) (tail : Bytes) (ht : t.toNat &&& 0x80 ≠ 0) (hn : t.toNat &&& 0x40 ≠ 0)
+    (hbig : tail.length + 6 < 6 + (((a.toNat * 256 + b.toNat) * 256 + c.toNat) * 256 + d.toNat)) :
+    splitPackets (t :: 255 :: a :: b :: c :: d :: tail) = none := by
+  unfold splitPackets
+  simp only [splitAux, packetLens, ht, hn, if_false, ne_eq, not_false_eq_true, if_true]
+  have : ¬ ((255 : UInt8).toNat < 192) := by decide
+  simp only [this, if_false, show (255 : UInt8).toNat = 255 from rfl, if_true, List.length_cons,
+    show ¬ ((255 : Nat) < 224) from by decide]
+  show (if _ then _ else none) = none
+  rw [if_neg (by omega)]
+
+/-- the witness of the defect: `e6 3b 96 06 32 f2 af` (declares 59 bytes, holds 5; the old code then re-synchronised on
+`96 06 32 f2 af` = an old-format packet of 104 002 223 bytes) has no valid framing; a well-formed blob has -/
+theorem split_witness :
+    splitPackets [0xe6, 0x3b, 0x96, 0x06, 0x32, 0xf2, 0xaf] = none
+      ∧ splitPackets [0x96, 0x06, 0x32, 0xf2, 0xaf] = none
+      ∧ splitPackets [0x88, 2, 1, 2, 0xc2, 1, 9] = some [[0x88, 2, 1, 2], [0xc2, 1, 9]] := by
+  decide
+
+end pgp
 
 /-! ### non-vacuity: hostile inputs the old code crashed on are plain errors in the model -/
 -- offset 100 in a 3-byte store (was: slice panic)
